@@ -350,7 +350,8 @@ class HDS(AlignedStream):
             if read_offset is None:
                 if self.parent:
                     self.parent.seek(offset)
-                    result.append(self.parent.read(read_size))
+                    # The parent may be smaller than this image, anything beyond its end reads as zeros
+                    result.append(self.parent.read(read_size).ljust(read_size, b"\x00"))
                 else:
                     result.append(b"\x00" * read_size)
             else:
